@@ -465,3 +465,97 @@ func f(s string) int {
 		}
 	}
 }
+
+func TestInlineLockDeferHelperKeepsTheCriticalSection(t *testing.T) {
+	res, idents := inlined(t, `package p
+type locker interface{ Lock(); Unlock() }
+type D int64
+type R struct{ mu locker; m map[string]int }
+func (r *R) refresh(from map[string]int) {
+	r.mu.Lock()
+	defer r.mu.Unlock()
+	for k, v := range from {
+		r.m[k] = v
+	}
+}
+func wait(d D) int { x := int(d); if x > 1 { return x }; return 1 }
+func root(r *R, from map[string]int) *R {
+	r.refresh(from)
+	_ = wait(0)
+	return r
+}`)
+	if res == nil || len(res.Inlined) != 2 {
+		t.Fatalf("inlined = %+v", res)
+	}
+	if strings.Contains(idents, "defer") || !strings.Contains(idents, "Unlock") {
+		t.Fatalf("the deferred unlock must become a plain unlock after the body: %s", idents)
+	}
+	fn := FindFunc(res.Pkg, "root")
+	g := fn.Graph()
+	var lock, unlock, store ast.Node
+	fn.InspectShallow(func(n ast.Node) bool {
+		switch x := n.(type) {
+		case *ast.CallExpr:
+			if s, ok := x.Fun.(*ast.SelectorExpr); ok {
+				switch s.Sel.Name {
+				case "Lock":
+					lock = x
+				case "Unlock":
+					unlock = x
+				}
+			}
+		case *ast.AssignStmt:
+			if _, ok := x.Lhs[0].(*ast.IndexExpr); ok {
+				store = x
+			}
+		}
+		return true
+	})
+	if lock == nil || unlock == nil || store == nil || !g.NodeBefore(lock, store) || !g.NodeBefore(lock, unlock) {
+		t.Fatalf("lock, store, unlock not in order after inlining")
+	}
+	if g.ReachAvoiding(g.Locate(unlock), g.Locate(store), nil) {
+		t.Fatalf("the store must not be reachable after the unlock")
+	}
+}
+
+func TestReachAvoiding(t *testing.T) {
+	pkg := load(t, `package p
+func f(q []int) int {
+	p := &q[0]
+	for i := 0; i < 3; i++ {
+		if *p > 2 {
+			q = q[1:]
+			continue
+		}
+		_ = *p
+		p = &q[0]
+	}
+	return *p
+}`)
+	fn := FindFunc(pkg, "f")
+	g := fn.Graph()
+	var pop, redefine ast.Node
+	var uses []ast.Node
+	fn.InspectShallow(func(n ast.Node) bool {
+		switch x := n.(type) {
+		case *ast.AssignStmt:
+			if id, ok := x.Lhs[0].(*ast.Ident); ok && id.Name == "q" {
+				pop = x
+			}
+			if id, ok := x.Lhs[0].(*ast.Ident); ok && id.Name == "p" && x.Tok == token.ASSIGN {
+				redefine = x
+			}
+		case *ast.StarExpr:
+			uses = append(uses, x)
+		}
+		return true
+	})
+	if pop == nil || redefine == nil || len(uses) != 3 {
+		t.Fatalf("fixture not found: %v %v %d", pop, redefine, len(uses))
+	}
+	// after the pop, the loop continues: `*p > 2` is reachable again without passing the redefinition
+	if !g.ReachAvoiding(g.Locate(pop), g.Locate(uses[0]), []Loc{g.Locate(redefine)}) {
+		t.Fatalf("the use in the loop condition is reachable from the pop through the back edge")
+	}
+}
